@@ -298,7 +298,7 @@ func RunSeq(seed int64, p SeqProfile) (out []Ev) {
 		g.R = w.NewColl("R", p.Capacity, p.Transport, 0)
 	}
 	if p.Keyed {
-		g.P.Keys = []string{"k1", "k2", "k3", "k4"}
+		g.P.Keys = []string{"k0", "k1", "k2", "k3", "k4"} // k0 is the empty string
 		if g.R != nil {
 			g.R.Keys = g.P.Keys
 		}
